@@ -372,10 +372,18 @@ func genHandlers(c *genCtx) error {
 					if lim > 24 {
 						lim = 24
 					}
-					for x := -1; x <= lim; x++ {
+					lo := -h.calls[k].off - 2 // every negative offset that stays inside the document, and a little beyond
+					if lo < -40 {
+						lo = -40
+					}
+					for x := lo; x <= lim; x++ {
 						sc := make([]answer, k+1)
 						sc[k] = answer{mode: modeRaw, pp: x}
 						runHandle(c.sw, &j, kind, v, sc, zero, nil, c.st, "mid")
+						if x < 0 {
+							// the same answer on every later call as well (a handler that keeps pointing backwards)
+							runHandle(c.sw, &j, kind, v, sc, answer{mode: modeRaw, pp: x}, nil, c.st, "mid")
+						}
 					}
 				}
 			}
